@@ -6,7 +6,7 @@ model output: `(toks <cmp computed by the Lean rewrite + lexer model>)` followed
 judged by the spec verdict): the tie compares the token-stream comparison of the two texts, which exercises the shared rewrite
 definition and the lexer model on both.
 spec verdict: outside the recorded classes the rewritten program must parse to the same printed tree (`(ast equal)` or both fail),
-parsing the same text twice must agree (`(det true)`), and for comment/spaces/cont/mlcomment the token streams must be `same`.
+parsing the same text twice must agree (`(det true)`), and for comment/spaces/cont/mlcomment (not on an empty line, where the inserted text forms a line of its own) the token streams must be `same`.
 -/
 open ErgVerif ErgVerif.Lex ErgVerif.C10
 
@@ -29,9 +29,9 @@ def handle (line : String) : String :=
             if has "crash" then "viol:parser-crash"
             else if has "(det false)" then "viol:nondeterministic"
             else if !(has "(ast equal)" || has "(ast err-both)") then "viol:tree-changed"
-            else if (kd = .comment || kd = .comment0 || kd = .spaces || kd = .cont || kd = .mlcomment) && c ≠ .same && c ≠ .errBoth then "viol:token-stream-changed"
+            else if (kd = .comment || kd = .comment0 || kd = .spaces || kd = .cont || kd = .mlcomment) && !onEmptyLine s k && c ≠ .same && c ≠ .errBoth then "viol:token-stream-changed"
             else "ok"
-          id ++ "\t(toks " ++ c.name ++ ")" ++ flags ++ "\t" ++ v ++ "\t" ++ findingClass kd
+          id ++ "\t(toks " ++ c.name ++ ")" ++ flags ++ "\t" ++ v ++ "\t" ++ findingClass kd k s
       | _, _ => id ++ "\tbad-input\t-\t-"
     | _ => id ++ "\tbad-input\t-\t-"
   | _ => "?\tbad-line\t-\t-"
